@@ -606,6 +606,19 @@ def c07_check(case, prog):
     r0 = original_spelling(case["text"], U, W)
     if r0:
         return r0
+    if any(e["kind"] == "placement" for e in applied):
+        # print_in_data_block is an output setting, not an edit of an object: the edited write is compared with the
+        # write of the unedited problem under the SAME setting, and the setting itself touches no input
+        try:
+            pr2 = mp.read_problem(case["text"], version=VERS[W])
+            with warnings.catch_warnings():
+                warnings.simplefilter("ignore")
+                ED.apply_program(pr2, [e for e in applied if e["kind"] == "placement"])
+            U = mp.write_problem(pr2, "u2.i", VERS[W])
+        except Exception:
+            return None
+        applied = [e for e in applied if e["kind"] != "placement"]
+        exps = [x for x in exps if x[0] != "placement"]
     su = spec.split_file(U, W)
     se = spec.split_file(E, W)
     if not any(ex[0] == "title" for ex in exps) and su["title"] != se["title"]:
